@@ -27,6 +27,8 @@ A_SPECS = {
     "A_literal_text": '<start> ::= "[a-z]+" "=" "[0-9]+"\n',
     "A_regex_text": '<start> ::= r"[a-z]+" "=" r"[0-9]+"\n',
     # protocol mode: two messages sent by the fuzzer, the first one stagnates (the tuner raises the repetition cap per message)
+    # the same extra-constraint TEXT means something else in A than in B (each spec defines its own helper)
+    "A_helper": 'def ok(x):\n    return int(str(x)) % 2 == 0\n<start> ::= <d>{3}\n<d> ::= r"[0-9]"\n',
     "A_io": "<start> ::= <StdOut:first> <StdOut:second>\n<first> ::= 'A' <n> '\\n'\n<second> ::= 'B' <n> '\\n'\n<n> ::= <d>+\n<d> ::= '0' | '1' | '2' | '3' | '4' | '5' | '6' | '7' | '8' | '9'\nwhere int(str(<first>.<n>)) % 97 == 13\n",
 }
 B_SPECS = {
@@ -34,10 +36,12 @@ B_SPECS = {
     "B_constrained": ('<start> ::= <x>* ";"\n<x> ::= "a" | "bb"\nwhere len(str(<start>)) > 3\n', "abba;"),
     "B_same_words": ('<start> ::= <x>*\n<x> ::= "a" | "b"\nwhere len(str(<start>)) == 4\n', "abab"),
     "B_soft": ('<start> ::= <d>+\n<d> ::= r"[0-9]"\nmaximizing str(<start>).count("7")\nwhere len(str(<start>)) < 7\n', "7747"),
+    "B_helper": ('def ok(x):\n    return int(str(x)) % 2 == 1\n<start> ::= <d>{3}\n<d> ::= r"[0-9]"\n', "123"),
     "B_regex_text": ('<start> ::= <k> "=" <v>\n<k> ::= r"[a-z]+"\n<v> ::= r"[0-9]+"\n', "abc=123"),
     "B_literal_text": ('<start> ::= <k> "=" <v>\n<k> ::= "[a-z]+" | "k"\n<v> ::= "[0-9]+" | "7"\n', "[a-z]+=[0-9]+"),
 }
-OPS = ["A.fuzz", "A.fuzz_long", "A.fuzz_until_found", "A.parse", "A.construct", "A.fuzz_io", "C.construct", "C.fuzz"]  # activity on OTHER spec objects only
+EXTRA = {"B_helper": ["ok(<start>)"]}   # extra constraints handed to B's observed search (and to A.fuzz_extra)
+OPS = ["A.fuzz", "A.fuzz_extra", "A.fuzz_long", "A.fuzz_until_found", "A.parse", "A.construct", "A.fuzz_io", "C.construct", "C.fuzz"]  # activity on OTHER spec objects only
 
 
 def fingerprint():
@@ -47,10 +51,10 @@ def fingerprint():
     return {"nodes.MAX_REPETITIONS": nodes.MAX_REPETITIONS, "constraints.LEGACY": cons.LEGACY, "FandangoIO._instances": len(FandangoIO._instances)}
 
 
-def observe_b(b):
+def observe_b(b, extra=None):
     sols = []
     try:
-        b.fuzz(desired_solutions=6, max_generations=5, population_size=8, random_seed=11,
+        b.fuzz(desired_solutions=6, max_generations=5, population_size=8, random_seed=11, **({"extra_constraints": list(extra)} if extra else {}),
                solution_callback=lambda t, i: sols.append(str(t)))
         err = None
     except Exception as e:
@@ -87,6 +91,8 @@ def run_history(task):
                 continue
             if op == "A.fuzz":
                 a.fuzz(desired_solutions=2, max_generations=3, population_size=6, random_seed=5)
+            elif op == "A.fuzz_extra":
+                a.fuzz(desired_solutions=2, max_generations=3, population_size=6, random_seed=5, extra_constraints=["ok(<start>)"])
             elif op == "A.fuzz_long":
                 a.fuzz(desired_solutions=50, max_generations=12, population_size=10, random_seed=6)
             elif op == "A.fuzz_until_found":
@@ -109,9 +115,59 @@ def run_history(task):
     fp = fingerprint()
     if b is None:
         b = build(b_text)
-    sols, err = observe_b(b)
+    sols, err = observe_b(b, EXTRA.get(b_name))
     forest = [repr(snap(t)) for t in b.parse(b_word)]
     return {"solutions": sols, "error": err, "forest": forest, "fingerprint": fp}
+
+
+# ---- one `fandango shell` session = one process: commands on other specs must not change what the last command prints
+SHELL_A = '<start> ::= <item>+\n<item> ::= <digit> | "(" <start> ")"\n'
+SHELL_B = '<start> ::= <word> (" " <word>)*\n<word> ::= <ascii_lowercase_letter>+\n'
+SHELL_SETS = [[], ["set --population-size 20"], ["set --max-nodes 40"]]
+SHELL_CMDS = ["fuzz -f {A} -n 3 --random-seed 1 --max-nodes 15 -o {O}", "fuzz -f {A} -n 2 --random-seed 2 --population-size 7 -o {O}",
+              "fuzz -f {A} -n 2 --random-seed 3 --start-symbol <item> -o {O}", "parse -f {A} {W}"]
+
+
+def shell_session(task):
+    import io, os, shutil, sys, tempfile
+    sets, cmds = task
+    tmp = tempfile.mkdtemp(prefix="c18shell_", dir="/var/tmp")
+    try:
+        paths = {"A": os.path.join(tmp, "A.fan"), "B": os.path.join(tmp, "B.fan"), "O": os.path.join(tmp, "a.out"), "W": os.path.join(tmp, "w.txt")}
+        open(paths["A"], "w").write(SHELL_A)
+        open(paths["B"], "w").write(SHELL_B)
+        open(paths["W"], "w").write("(1)2")
+        script = "".join(c + "\n" for c in sets) + "".join(c.format(**paths) + "\n" for c in cmds) + f"fuzz -f {paths['B']} -n 4 --random-seed 1\n"
+        os.environ["FANDANGO_DISABLE_UPDATE_CHECK"] = "1"
+        from fandango.cli import main
+        out, err = io.StringIO(), io.StringIO()
+        saved = sys.stdout, sys.stderr, sys.stdin
+        sys.stdin = io.StringIO(script)
+        try:
+            rc = main("shell", stdout=out, stderr=err)
+        except SystemExit as e:
+            rc = e.code
+        finally:
+            sys.stdout, sys.stderr, sys.stdin = saved
+        lines = out.getvalue().splitlines()
+        return {"rc": rc, "last4": lines[-4:], "n_lines": len(lines)}
+    finally:
+        shutil.rmtree(tmp, ignore_errors=True)
+
+
+def shell_part(ctx: Ctx) -> dict:
+    seqs = [()] + [(c,) for c in SHELL_CMDS]
+    if not ctx.quick:
+        seqs += list(itertools.product(SHELL_CMDS, repeat=2))
+    tasks = [(tuple(sv), tuple(cm)) for sv in SHELL_SETS for cm in seqs]
+    res = pmap_tagged(shell_session, tasks, chunk=1, fresh=True)
+    base = {t[0]: r for t, r in zip(tasks, res) if t[1] == ()}
+    for t, r in zip(tasks, res):
+        ref = base[t[0]]
+        if t[1] and (r["rc"], r["last4"]) != (ref["rc"], ref["last4"]):
+            ctx.violation({"kind": "shell_command_influenced_by_earlier_command", "session_defaults": list(t[0]), "earlier_commands": list(t[1]),
+                           "alone": ref["last4"], "after": r["last4"], "sig": f"shell:{t[1][-1].split()[0]}:{' '.join(x for x in t[1][-1].split() if x.startswith('--'))}"})
+    return {"sessions": len(tasks), "distinct_outputs": len({tuple(r["last4"]) for r in res})}
 
 
 def run(ctx: Ctx) -> None:
@@ -121,8 +177,8 @@ def run(ctx: Ctx) -> None:
         hists += list(itertools.product(OPS, repeat=d))
     # histories that only touch B itself before the observation are about B's own state, not about other instances: B-ops only count in combination
     hists = [h for h in hists if not h or any(not op.startswith("B") for op in h)] + [()]
-    special = {"A_literal_text": ["B_regex_text"], "A_regex_text": ["B_literal_text"], "A_io": ["B_star", "B_constrained"]}
-    plain_b = [b for b in B_SPECS if b not in ("B_soft", "B_regex_text", "B_literal_text")]
+    special = {"A_helper": ["B_helper"], "A_literal_text": ["B_regex_text"], "A_regex_text": ["B_literal_text"], "A_io": ["B_star", "B_constrained"]}
+    plain_b = [b for b in B_SPECS if b not in ("B_soft", "B_regex_text", "B_literal_text", "B_helper")]
     pairs = []
     for a in A_SPECS:
         if a in special:
@@ -134,6 +190,8 @@ def run(ctx: Ctx) -> None:
     def relevant(a, h):
         # operations that need a particular A are only run with it; the literal/regex pairs need no long fuzzing of A
         if "A.fuzz_io" in h and a != "A_io":
+            return False
+        if ("A.fuzz_extra" in h) != (a == "A_helper") and ("A.fuzz_extra" in h or any(op.startswith("A.fuzz") for op in h)):
             return False
         if a in ("A_literal_text", "A_regex_text") and any(op in ("A.fuzz_long", "A.fuzz_until_found", "A.fuzz_io") for op in h):
             return False
@@ -161,8 +219,10 @@ def run(ctx: Ctx) -> None:
                            "alone": repr(ref["solutions"])[:200], "after_history": repr(r["solutions"])[:200], "module_state_changed": changed,
                            "max_repetitions_changed": "nodes.MAX_REPETITIONS" in changed,
                            "sig": f"{t[1]}:{'+'.join(what)}:state={sorted(changed)}"})
+    sh = shell_part(ctx)
     ctx.coverage.update(
-        states=len(tasks), transitions=sum(len(t[2]) for t in tasks) + len(tasks), traces_validated_against_impl=len(tasks),
+        shell_sessions=sh,
+        states=len(tasks) + sh["sessions"], transitions=sum(len(t[2]) for t in tasks) + len(tasks) + sh["sessions"], traces_validated_against_impl=len(tasks) + sh["sessions"],
         samples=[{"A": t[0], "B": t[1], "history": list(t[2])} for t in tasks[:4]], exhaustive=True, depth=depth, operations=OPS,
         distinct_module_state_fingerprints=len(fps),
         rule="state = history of operations on other spec objects (and unrelated requests on B) in one process; every history runs in its own fresh process; "
